@@ -23,6 +23,15 @@ SYNC_SHAPES = [("  0 = B 120000", ("B", 0, 120000)), ("  0 = B 120000", ("B", 0,
                ("  0 = TS 4", ("TS", 0)), ("  96 = TS 3 3", ("TS", 96)), ("  500 = B 000", ("B", 500, 0)), ("  0 = B 0", ("B", 0, 0)),
                ("  7 = A 1000", ("A", 7)), ("  garbage", ("?",))]
 NSYNC = H.part("VF_NSYNC", 3)
+_XRUN = [0]
+
+
+def _pad():
+    """Leading blanks unique to this harness invocation (recognisers allow any blank padding): keeps
+    explored paths independent of state a mutated implementation may keep per line text."""
+    _XRUN[0] += 1
+    return " " * (2 + _XRUN[0] % 89) + "\t" * (_XRUN[0] // 89 % 7)
+
 SK0 = H.part("VF_K0", -1)
 
 
@@ -36,7 +45,8 @@ def sync_real_lines(k0: int, k1: int, k2: int, k3: int, R: int) -> bool:
     # real recognisers on every sequence of NSYNC lines from the shapes above, resolution in {-192, 0, 192}
     res = H.pick([192, 0, -192], R)
     picks = [H.pick(SYNC_SHAPES, k) for k in [k0, k1, k2, k3][:NSYNC]]
-    lines = [p[0] for p in picks]
+    pad = _pad()
+    lines = [pad + p[0].strip() for p in picks]
     bpms = [p[1] for p in picks if p[1][0] == "B"]
     tss = [p[1] for p in picks if p[1][0] == "TS"]
     good = res > 0 and len(bpms) >= 1 and bpms[0][1] == 0
@@ -90,7 +100,8 @@ def global_real_lines(k0: int, k1: int, k2: int, k3: int) -> bool:
     post: _
     """
     picks = [H.pick(GE_SHAPES, k) for k in [k0, k1, k2, k3][:NGE]]
-    lines = [p[0] for p in picks]
+    pad = _pad()
+    lines = [pad + p[0].strip() for p in picks]
     want = {"TXT": [], "SEC": [], "LYR": []}
     nrej = 0
     sorted_ok = True
